@@ -2760,8 +2760,10 @@ class Coalescent(AbstractCoalescent, Serializable):
         """
         Drop state space cache.
         """
-        self.lineage_counting_state_space.drop_cache()
-        self.block_counting_state_space.drop_cache()
+        # only touch state spaces that have been created already
+        for name in ['lineage_counting_state_space', 'block_counting_state_space']:
+            if name in self.__dict__:
+                self.__dict__[name].drop_cache()
 
     def __setstate__(self, state: dict):
         """
